@@ -63,6 +63,9 @@ func hostile2(a [64]byte, b [40]int, m map[string]interface{}, c chan int, f fun
 }
 
 //go:noinline
+func noResult(x int) { vkit.Sink(uint64(x)) }
+
+//go:noinline
 func textFn(s string, bs []byte, e error) (string, error) { return "orig:" + s, e }
 
 // textFor builds text of 0..600 bytes from units of 1..4 bytes (ASCII, Latin, CJK, emoji), optionally with invalid UTF-8 or control characters
@@ -222,7 +225,9 @@ func play(sc *scen) (tr []string) {
 	say := func(f string, a ...interface{}) { tr = append(tr, fmt.Sprintf(f, a...)) }
 	call := func(name string, f func() []reflect.Value) {
 		var got []reflect.Value
-		if pv := guard(func() { got = f() }); pv != nil {
+		done := false
+		if pv := guard(func() { got = f(); done = true }); pv != nil || !done {
+			// (!done with a nil value: panic(nil), which recover reports as nil in modules that declare go < 1.21)
 			msg := fmt.Sprint(pv)
 			if i := strings.IndexByte(msg, '\n'); i > 0 {
 				msg = msg[:i]
@@ -321,16 +326,29 @@ func play(sc *scen) (tr []string) {
 		}
 	case "panic":
 		fn := corpus.Fns[0]
-		pvs := []interface{}{"boom", errors.New("err-boom"), 42, BadStringer{9}, nil}
-		pv := pvs[int(code(sc, 0)%5+5)%5]
+		pvs := []interface{}{"boom", errors.New("err-boom"), 42, BadStringer{9}, nil, "panic-nil"}
+		pv := pvs[int(code(sc, 0)%6+6)%6]
 		b.Func(fn.Fn).Apply(func(x int) int {
 			if pv == nil {
 				var p *int
 				return *p
 			}
+			if pv == "panic-nil" {
+				panic(nil)
+			}
 			panic(pv)
 		})
 		call("F000/panicking-callback", func() []reflect.Value { return fn.Call(int(code(sc, 1)%3+3)%3, valuesFor(ins(fn.Type, 0), 3)) })
+		// the same on a function without results
+		b.Func(noResult).Apply(func(x int) {
+			if pv == "panic-nil" {
+				panic(nil)
+			}
+			if pv != nil {
+				panic(pv)
+			}
+		})
+		call("noResult/panicking-callback", func() []reflect.Value { noResult(3); return nil })
 	case "hostile":
 		var saw string
 		b.Func(hostile).Apply(func(n *vkit.Node, e error, i interface{}, s fmt.Stringer, h hidden, big []int, pp **int) (error, interface{}, *vkit.Node) {
@@ -476,6 +494,9 @@ func runScen(ci interface{}, s *vkit.Stats) error {
 		var tr []string
 		if pv := guard(func() { tr = play(sc) }); pv != nil {
 			return fmt.Errorf("scenario %s/%d under logging mode %q panicked outside any call: %v", sc.Kind, sc.K, mode, pv)
+		}
+		if os.Getenv("VERIF_DUMP") != "" {
+			fmt.Fprintf(os.Stderr, "---- transcript under %q\n%s\n", mode, strings.Join(tr, "\n"))
 		}
 		if base == nil {
 			base = tr
